@@ -69,6 +69,37 @@ def asyncRecv (T d start : Nat) : Nat → List Arrival → End
       | .garbage => .decodeError (t + d)
       | .stray => asyncRecv T d start (t + d) rest
 
+/-- the same loop with the socket option made explicit: `cur` is the value of `SO_RCVTIMEO` armed on
+the socket; every `recv` waits `cur` from `now`; after a skipped datagram `_recv_until` re-arms the
+socket with what is left of `T`. Returns the end of the call and the value left on the socket. -/
+def syncRecvS (T d start : Nat) : Nat → Nat → List Arrival → End × Nat
+  | now, cur, [] => (.timeout (now + cur), cur)
+  | now, cur, a :: rest =>
+    let t := max now a.time
+    if now + cur ≤ t then (.timeout (now + cur), cur)
+    else match a.kind with
+      | .reply => (.delivered (t + d), cur)
+      | .garbage => (.decodeError (t + d), cur)
+      | .stray =>
+        if T ≤ t + d - start then (.timeout (t + d), cur)
+        else syncRecvS T d start (t + d) (T - (t + d - start)) rest
+
+/-- the socket as the session sees it between calls -/
+structure Sock where
+  configured : Nat
+  armed : Nat
+  deriving Repr, DecidableEq
+
+/-- one blocking call, `_recv_inner`: read the armed timeout, run the loop, restore the value read -/
+def syncCall (d : Nat) (s : Sock) (start : Nat) (arrivals : List Arrival) : Sock × End :=
+  let T := s.armed
+  ({ s with armed := T }, (syncRecvS T d start start T arrivals).1)
+
+/-- a history of calls on one session: (start time, arrivals) each -/
+def syncCalls (d : Nat) : Sock → List (Nat × List Arrival) → List End
+  | _, [] => []
+  | s, (start, arr) :: rest => (syncCall d s start arr).2 :: syncCalls d (syncCall d s start arr).1 rest
+
 /-- the clock after skipping a run of datagrams -/
 def clock (d : Nat) : Nat → List Arrival → Nat
   | now, [] => now
